@@ -210,6 +210,26 @@ def main():
     lock = json.load(open(LOCK)) if os.path.exists(LOCK) else {}
     known = json.load(open(KNOWN)) if os.path.exists(KNOWN) else {'findings': [], 'fixed': []}
     plock = lock.get(pid, {})
+    # guard against solver instability and a loaded machine: a locked obligation that the solvers neither discharged nor refuted (unknown)
+    # is tried once more - its function is verified again, alone on all cores, with three times the time limit and another seed - before it
+    # can count as failing.  An obligation discharged by either run is discharged.
+    shaky = sorted(set(r['fn'] for r in results if r['status'] == 'ok' for nm, o in r['obls'].items()
+                       if nm in plock and o['status'] == 'undischarged' and 'sat' not in o['results']))
+    if shaky and len(shaky) <= 6 and not update:
+        opts2 = dict(opts); opts2['timeout'] = opts['timeout'] * 3; opts2['seed'] = seed + 7; opts2['inner_jobs'] = jobs; opts2['budget_s'] = opts.get('budget_s', 150) * 2
+        _G.update(opts=opts2)
+        byfn = {r['fn']: r for r in results}
+        for f in shaky:
+            ctx = mp.get_context('fork')
+            with ProcessPoolExecutor(max_workers=1, mp_context=ctx) as ex:
+                r2 = ex.submit(run_function, f).result()
+            if r2['status'] != 'ok': continue
+            for nm, o2 in r2['obls'].items():
+                o1 = byfn[f]['obls'].get(nm)
+                if o1 is not None and o1['status'] != 'discharged' and o2['status'] == 'discharged':
+                    o2 = dict(o2); o2['backends'] = sorted(set(o2['backends']) | {'second attempt (3x time limit)'})
+                    byfn[f]['obls'][nm] = o2
+        _G.update(opts=opts)
     known_names = {k['obligation']: k for k in known.get('findings', []) if k['property'] == pid}
     # ---- verdicts ----
     allobs = {}
